@@ -1,0 +1,23 @@
+//go:build verif
+
+// Machine-checked contracts for this package (comment-only; compiled only with -tags verif,
+// and even then contributes no code).  Read by /verif/govc; see /verif/DESIGN.md.
+
+package nat
+
+//@ -- Sizes of the NAT map keys and values as encoded by Go must equal the kernel program's structs
+//@ -- (IPv4 and IPv6 builds).
+//@ layout natFrontendKey: frontendKeySize == csizeof("struct calico_nat_key") && frontendKeyV6Size == csizeof6("struct calico_nat_key")
+//@   property C13
+//@ layout natFrontendValue: frontendValueSize == csizeof("struct calico_nat_value") && frontendValueV6Size == csizeof6("struct calico_nat_value")
+//@   property C13
+//@ layout natBackendKey: backendKeySize == csizeof("struct calico_nat_secondary_key") && backendKeyV6Size == csizeof6("struct calico_nat_secondary_key")
+//@   property C13
+//@ layout natBackendValue: backendValueSize == csizeof("struct calico_nat_dest") && backendValueV6Size == csizeof6("struct calico_nat_dest")
+//@   property C13
+//@ layout natMaglevKey: MaglevBackendKeySize == csizeof("struct cali_maglev_key") && maglevBackendKeyV6Size == csizeof6("struct cali_maglev_key")
+//@   property C13
+//@ layout natAffinityKey: affinityKeySize == csizeof("struct calico_nat_affinity_key") && affinityKeyV6Size == csizeof6("struct calico_nat_affinity_key")
+//@   property C13
+//@ layout natAffinityValue: affinityValueSize == csizeof("struct calico_nat_affinity_val")
+//@   property C13
